@@ -107,15 +107,15 @@ type recorder struct {
 	stopLogged bool
 	dialUDP    bool
 	overflow   bool
-	curCall    string         // handler API call in progress on the loop thread (for oracle signatures)
-	ptr2fd     map[uint64]int // poll_opt: epoll data (attachment pointer) -> descriptor it was registered for
-	suppressBy map[int64]bool // goroutines whose system calls are, for the moment, the harness's own extra actions and not part of the trace (per goroutine: loops run concurrently)
-	acceptGate chan struct{}  // when set, the loop thread waits here before accept(2)
+	curCallBy  map[int64]string // per goroutine: handler API call in progress (for oracle signatures)
+	ptr2fd     map[uint64]int   // poll_opt: epoll data (attachment pointer) -> descriptor it was registered for
+	suppressBy map[int64]bool   // goroutines whose system calls are, for the moment, the harness's own extra actions and not part of the trace (per goroutine: loops run concurrently)
+	acceptGate chan struct{}    // when set, the loop thread waits here before accept(2)
 	client     bool
 }
 
 func newRecorder() *recorder {
-	r := &recorder{suppressBy: map[int64]bool{}, ptr2fd: map[uint64]int{}, gidM: map[int]int{}, otherG: map[int64]bool{}, idleG: map[int64]bool{}, nloops: 1, fdCid: map[int]int{}, owned: map[int]string{}, delivered: map[int][]byte{},
+	r := &recorder{suppressBy: map[int64]bool{}, curCallBy: map[int64]string{}, ptr2fd: map[uint64]int{}, gidM: map[int]int{}, otherG: map[int64]bool{}, idleG: map[int64]bool{}, nloops: 1, fdCid: map[int]int{}, owned: map[int]string{}, delivered: map[int][]byte{},
 		handed: map[int]int{}, handedB: map[int][]byte{}, faulted: map[int]string{}, closing: map[int]bool{}, counters: map[string]int{}, canaries: map[int]*net.UDPConn{},
 		loopEpfd: -1, loopEfd: -1, accEpfd: -1}
 	r.cond = sync.NewCond(&r.mu)
@@ -291,8 +291,8 @@ func (r *recorder) checkOwned(c *vunix.Call, fd int, g int64) {
 		if name == "epoll_ctl" {
 			name += map[int]string{unix.EPOLL_CTL_ADD: "-add", unix.EPOLL_CTL_MOD: "-mod", unix.EPOLL_CTL_DEL: "-del"}[c.Arg]
 		}
-		if who == "loop" && r.curCall != "" && (name == "sendto" || name == "send") {
-			name += "@" + r.curCall
+		if who == "loop" && r.curCallBy[g] != "" && (name == "sendto" || name == "send") {
+			name += "@" + r.curCallBy[g]
 		}
 		if who == "ext" && r.poke != "" {
 			name += "@" + r.poke
